@@ -53,6 +53,9 @@ def enabled(events, maxnest, rich=True, comments=True, flow=True, tests=True, cl
         if rich:
             # the same documented command verbatim (same name, same doc) may occur several times in a module
             out += [{"k": "set", "doc": 1, "name": "TWIN_VAR", "doctext": ["Twin var doc."], "values": ["v"]}]
+            # a doccomment without any text still is a doccomment
+            out += [{"k": "set", "doc": 1, "doctext": []}, {"k": "generic", "doc": 1, "cmd": "include_guard",
+                                                             "args": ["GLOBAL"], "doctext": [""]}]
             out += [{"k": "generic", "doc": 1, "cmd": "add_library", "args": ["tgt", "STATIC", "a.c"]},
                     {"k": "generic", "doc": 1, "cmd": "include_guard", "args": []}]
     out += [{"k": "cmake_parse_arguments"}]
